@@ -38,6 +38,22 @@ Proof.
   destruct (Hrest [] Hs0 Hw0 Hc0) as (lvs & HF2 & Hcb & _ & _). exists lvs. split; [exact HF2|exact Hcb].
 Qed.
 
+(* histories with FAILING operations in between (a rejected push returns an error, the caller goes on): every build returns the one-shot
+   conversion of exactly the rows whose push succeeded since the previous build - a rejected value leaves no row behind *)
+Theorem C10_rejected_pushes_leave_no_row : forall f b0, build f = Some b0 ->
+  forall ops, Forall2 (fun batch out => one_shot b0 batch = Ok out) (batches [] (accepted b0 ops)) (run_lenient b0 ops).
+Proof. exact lenient_history_batches. Qed.
+
+Example C10_rejected_example :
+  match build (mkField [] (DStruct [mkField (b "a") (DPrim (PInt I8)) false]) false) with
+  | Some b0 =>
+    let ops := [HPush (VStruct [(b "a", VInt I8 1)]); HPush VNone; HPush (VStruct [(b "a", VInt I32 300)]); HPush (VStruct [(b "a", VInt I8 2)]); HBuild] in
+    accepted b0 ops = [HPush (VStruct [(b "a", VInt I8 1)]); HPush (VStruct [(b "a", VInt I8 2)]); HBuild]
+    /\ run_lenient b0 ops = [AStruct 2 None [({| m_name := b "a"; m_nullable := false |}, APrim (PInt I8) None [1; 2]%Z)]]
+  | None => False
+  end.
+Proof. vm_compute. split; reflexivity. Qed.
+
 (* ---- per-batch state: the dictionary builder (string -> key table, key and value builders) ---- *)
 (* a build empties the table together with the children: what stays behind is the freshly constructed builder *)
 Theorem C10_dictionary_take_is_fresh : forall d k nl vk, dict_kinds d = Some (k, nl, vk) -> dict_reset d = dict_new k vk nl.
@@ -143,3 +159,4 @@ Print Assumptions C10_dictionary_history.
 Print Assumptions C10_dictionary_well_formed.
 Print Assumptions C10_history_content.
 Print Assumptions C10_history.
+Print Assumptions C10_rejected_pushes_leave_no_row.
